@@ -71,6 +71,11 @@ def run(ck, F):
         if inst not in flagged and 'String' in inst:
             ck.ok(R_sp, inst)
     K.finish_partial(())
+    # the tables the names and atoms are unified in find what they hold only as long as they stay valid search trees: an entry cut off by a wrong rotation is
+    # built a second time -- `same arguments, same node` then depends on what was requested in between
+    import c08 as _c08
+    import c11 as _c11
+    _c08.run(_c11._Only(ck, {'fixup-step', 'descent', 'count-and-reuse'}), F, prefix='C04')
     for r in (K.R_diag, K.R_cover, K.R_lex):
         ck.rules[r]['floor'] = 13
     ck.rules[K.R_atom]['floor'] = 2
